@@ -58,6 +58,11 @@ C04_MessageOnce ==
         /\ Len(MsgEvents(s)) + Len(PendingFor(s)) = Len(g.rcvd[s])
         /\ \A i \in 1..Len(MsgEvents(s)) : MsgEvents(s)[i] = "msg:" \o g.rcvd[s][i]
 
+\* a POST carrying a packet of a type the server does not accept ends the session
+\* (negative-control form: violated when the asyncio defect F7 is re-admitted)
+C04_UnknownEndsSessionRaw ==
+    \A s \in Sid : "AsyncUnknownTypeSwallowed" \in g.dev => g.ss[s].closed \/ ~g.ss[s].used
+
 ---------------------------------------------------------------------------
 (* C05: connect first, one disconnect, reason = first cause *)
 C05_EventShape ==
@@ -72,10 +77,16 @@ C05_ReasonIsFirstCause ==
         IsDisc(g.ev[s][i]) => g.ev[s][i] = "disc:" \o g.cause[s]
 C05_ClosedHasDisc ==
     \A s \in Sid : g.ss[s].closing <=> \E i \in 1..Len(g.ev[s]) : IsDisc(g.ev[s][i])
+\* after the disconnect event nothing but message events of packets that were part of the
+\* same request body (or already handed to a background handler) may follow; no second
+\* disconnect, no connect.  (The strict form - nothing at all - is C05_DiscIsLast, which the
+\* models use wherever bodies carry nothing after a CLOSE.)
+C05_NothingAfterDisc ==
+    \A s \in Sid : \A i, j \in 1..Len(g.ev[s]) :
+        (i < j /\ IsDisc(g.ev[s][i])) => IsMsgEv(g.ev[s][j])
 \* a rejected session never sees another event
 C05_RejectedSilent ==
-    \A s \in Sid : (g.ss[s].used /\ ~g.ss[s].conn /\ s \notin g.table) =>
-        g.ev[s] = <<"connect">>
+    \A s \in g.rejd : g.ev[s] = <<"connect">> /\ s \notin g.table
 
 ---------------------------------------------------------------------------
 (* C06: upgrade only via the probe handshake; failure harmless *)
@@ -83,6 +94,15 @@ C05_RejectedSilent ==
 C06_UpgradingOnlyDuringHandshakeRaw ==
     Quiescent => \A s \in Sid : g.ss[s].upging => wsr[s].st \in {"probe", "upg"}
 C06_UpgradingOnlyDuringHandshake == NoDev => C06_UpgradingOnlyDuringHandshakeRaw
+\* a session is on websocket only through PING probe -> PONG probe -> UPGRADE on that socket,
+\* or because it was opened as a websocket
+C06_UpgradedOnlyViaHandshake ==
+    \A s \in Sid : g.ss[s].upged => g.hs[s] \in {"upgraded", "fresh"}
+\* a transport the server does not allow is never used
+C06_TransportAllowed ==
+    /\ "websocket" \notin Transports => \A s \in Sid : ~g.ss[s].upged /\ ~g.ss[s].upging
+    /\ "polling" \notin Transports =>
+           \A s \in Sid : \A i \in 1..Len(g.deliv[s]) : g.deliv[s][i][2] = "ws"
 C06_NeverBothFlags == \A s \in Sid : ~(g.ss[s].upging /\ g.ss[s].upged)
 C06_WsOnlyIfAvailable == ~WsAvailable => \A s \in Sid : ~g.ss[s].upged /\ ~g.ss[s].upging
 
